@@ -25,11 +25,12 @@ def main():
     shards = "16"
     if "--shards" in sys.argv:
         shards = sys.argv[sys.argv.index("--shards") + 1]
-    pristine = "/tmp/regress-pristine"
+    tag = os.environ.get("REGRESS_TAG", "")
+    pristine = "/tmp/regress-pristine" + tag
     head = mutate.pin(pristine)
-    repo = "/tmp/regress-repo"
+    repo = "/tmp/regress-repo" + tag
     # the checks run from a private copy of /verif (own build directory and evidence files).
-    verif = "/tmp/regress-verif"
+    verif = "/tmp/regress-verif" + tag
     subprocess.run(["rsync", "-a", "--delete", "--exclude", ".git", "--exclude", "replays", "--exclude", "seeded", "--exclude", "mutation",
                     "--exclude", ".build/out", ROOT + "/", verif + "/"], check=True)
     out = {"commit": head, "results": {}}
@@ -57,7 +58,7 @@ def main():
             res["checks"][c] = {"exit": rc, "detected": rc == 1 and "VIOLATION property=" in o, "wall_s": round(time.time() - t0, 1)}
         out["results"][name] = res
         print(name, {c: v["detected"] for c, v in res["checks"].items()}, flush=True)
-        json.dump(out, open(os.path.join(ROOT, "seeded", "REGRESSION.json"), "w"), indent=1)
+        json.dump(out, open(os.path.join(ROOT, "seeded", "REGRESSION%s.json" % os.environ.get("REGRESS_TAG", "")), "w"), indent=1)
     missed = [n for n, r in out["results"].items() if r.get("applies") and not all(v["detected"] for v in r["checks"].values())]
     print("missed:", missed)
     print("not applicable any more:", [n for n, r in out["results"].items() if not r.get("applies")])
